@@ -437,7 +437,14 @@ func generate(f *hlib.Flags, dir string) []In {
 				sh.tag = "random_outside"
 			}
 		}
-		ins = append(ins, w.genCase(ctx, rng, dir, i, sh))
+		in := w.genCase(ctx, rng, dir, i, sh)
+		// every third case with at least two L2 blocks: the certificate being built is the replacement of a certificate for the
+		// first L2 block(s) that ended InError and had been built against the OLDEST recorded L1 info root
+		if len(in.L2) >= 2 && i%3 == 1 {
+			in.PrevErr = &PrevErr{To: in.L2[rng.Intn(len(in.L2)-1)].Num, RootIdx: 0}
+			in.Tag += "+retry_of_inerror"
+		}
+		ins = append(ins, in)
 	}
 	return ins
 }
